@@ -139,7 +139,7 @@ class C16Monitor(X.Monitor):
                                     (o.visibility, type(o.visibility).__name__, lv), {"mode": vis_mode})
                 # --- pose -----------------------------------------------------------------------------
                 pose = tuple(st["pose"])
-                q_map = rm.q_from_yaw(pose[3])
+                q_map = rm.q_from_ypr(pose[3], *st["rp"]) if st.get("rp") else rm.q_from_yaw(pose[3])
                 if frame_name == "map":
                     want_p, want_q, clause = pose[:3], q_map, "pose_map"
                 else:
@@ -166,8 +166,9 @@ class C16Monitor(X.Monitor):
                             if not _close(tuple(stt.shape.size), tuple(a["size"]), 1e-9):
                                 ctx.violate("C16", "tracked_path", "tracked state size differs from the annotation", {})
                             if frame_name == "map":
+                                qk = rm.q_from_ypr(pk[3], *a["states"][k]["rp"]) if a["states"][k].get("rp") else rm.q_from_yaw(pk[3])
                                 if not _close(tuple(stt.position), pk[:3]) or rm.q_angle_between(
-                                    tuple(float(e) for e in stt.orientation.elements), rm.q_from_yaw(pk[3])
+                                    tuple(float(e) for e in stt.orientation.elements), qk
                                 ) > ANG_TOL:
                                     ctx.violate("C16", "tracked_path", "tracked state pose differs from the preceding annotation",
                                                 {"frame": i, "back": k})
